@@ -161,6 +161,6 @@ pub fn replay(v: &Value) -> Outcome {
     o.tag(match op { "format" => "format", "renameNT" => "renameNT", "renameState" => "renameState", _ => "other" });
     let (ca, cb) = (scan_text(a).map(|x| x.0).unwrap_or_default(), scan_text(b).map(|x| x.0).unwrap_or_default());
     o.trace.push(json!({"ev":"lsx","op":op,"id":v["id"],"accepted":true,"a":ma,"b":mb,"ca":ca,"cb":cb,"cfa":ca.concat(),"cfb":cb.concat(),
-        "idem": v["b2"].is_null() || v["b2"] == v["b"], "old": v["old"], "new": v["new"], "info": v["info"]}));
+        "idem": v["b2"].is_null() || v["b2"] == v["b"], "textok": v["exp"].is_null() || v["exp"] == v["b"], "old": v["old"], "new": v["new"], "info": v["info"]}));
     o
 }
